@@ -131,6 +131,7 @@ type mem struct {
 }
 
 func heapKey(t types.Type) string {
+	t = types.Unalias(t)
 	if b, ok := t.(*types.Basic); ok {
 		return types.Typ[b.Kind()].Name() // byte == uint8, rune == int32
 	}
